@@ -202,6 +202,15 @@ func formatBlockStmt(ctx *formatCtx, stmt *ast.BlockStmt) {
 	}
 }
 
+// formatClause formats a case or communication clause: each clause is an
+// implicit block, so what it declares is not visible in the clauses after it.
+func formatClause(ctx *formatCtx, comm ast.Stmt, body []ast.Stmt) {
+	old := ctx.enterBlock()
+	defer ctx.leaveBlock(old)
+	formatStmt(ctx, comm)
+	formatStmts(ctx, body)
+}
+
 func formatStmts(ctx *formatCtx, stmts []ast.Stmt) {
 	for _, stmt := range stmts {
 		formatStmt(ctx, stmt)
@@ -226,14 +235,13 @@ func formatStmt(ctx *formatCtx, stmt ast.Stmt) {
 		formatIfStmt(ctx, v)
 	case *ast.CaseClause:
 		formatExprs(ctx, v.List)
-		formatStmts(ctx, v.Body)
+		formatClause(ctx, nil, v.Body)
 	case *ast.SwitchStmt:
 		formatSwitchStmt(ctx, v)
 	case *ast.TypeSwitchStmt:
 		formatTypeSwitchStmt(ctx, v)
 	case *ast.CommClause:
-		formatStmt(ctx, v.Comm)
-		formatStmts(ctx, v.Body)
+		formatClause(ctx, v.Comm, v.Body)
 	case *ast.SelectStmt:
 		formatBlockStmt(ctx, v.Body)
 	case *ast.DeclStmt:
